@@ -267,8 +267,13 @@ func randomScenario(r *rand.Rand, profile string) scenarioT {
 		}
 	}
 	if straight {
-		add("Cpu")
 		sc.Cap = 1 << 16
+		if r.Intn(6) == 0 { // a buffer that ends inside the program: the tail must be refused, not silently dropped
+			if size := measure(calls, sc.Gen); size > 4 {
+				sc.Cap = size - 1 - r.Intn(4)
+			}
+		}
+		add("Cpu")
 		sc.Calls = calls
 		return sc
 	}
